@@ -40,7 +40,10 @@ const (
 	idleSessionTimeout = time.Minute
 )
 
-var packetReplayCache = replay.NewCache(4*1024*1024, cipher.KeyRefreshInterval*3)
+// The packet transport shares the replay cache with the stream transport.
+// A session segment without payload has the same layout on both transports,
+// so traffic recorded on one transport must not be accepted on the other one.
+var packetReplayCache = streamReplayCache
 
 type PacketUnderlay struct {
 	// ---- common fields ----
